@@ -1,5 +1,12 @@
 SPEC_PART = dict(
     props_file="C18_hll",
     legs=[dict(family="hll", focus="size", oracles=["layout_ok"], profiles=["debug"], mask=[1, 2, 7], n_quick=8, n_thorough=40)],
-    trusted=[], assumptions=[], covers="hll: placeholder",
+    trusted=["hll: Model/HllCodec.v hll_serialize mirrors HllSketch::serialize (tied byte for byte by the correspondence run, op 7)"],
+    assumptions=["hll: coupons with a value field in 1..63; 4 <= lg_k <= 21"],
+    covers="hll: for every stream (all lg_k, types) the image of the reached sketch has exactly 8 + 4c (list, c <= 7 distinct "
+           "coupons), 12 + 4c (set, 4c <= 3 * 2^(lg_k-3)), 40 + k/2 + 4 aux (Hll4; aux = number of registers >= cur_min + 15 <= k), "
+           "40 + 3k/4 + 1 (Hll6) or 40 + k (Hll8) bytes -- c18_hll_image_size_of_stream, from the C02 refinement invariant; the same "
+           "formula for any well-formed sketch (merged, deserialized). Tie: serialize().len() of the crate after every power-of-two "
+           "prefix of growing streams (distinct, repeated, crafted coupons), checked by the Spec oracle (layout_ok computes the size "
+           "from the exact coupon set / register maxima) and byte for byte against the model.",
 )
